@@ -370,12 +370,31 @@ func (c *Ctx) c03setsIn(f *ssa.Function, org func(ssa.Value) string) *c03Sets {
 	s := &c03Sets{}
 	for _, add := range callsIn(f, "(in_toto.Set).Add") {
 		a := add.Common().Args
-		o := org(a[1])
-		if strings.HasPrefix(o, "path.Clean(in_toto.artifactsDictKeyStrings(") {
-			if strings.Contains(o, ".(in_toto.Link).Materials)") {
+		// path.Clean(name) for name out of the key set of link.Materials / link.Products (a range over the map or over
+		// its key list, built in place or by a key-list helper)
+		var m ssa.Value
+		if pcall, _ := producer(resolve(a[1], add), add); pcall != nil && calleeName(pcall) == "path.Clean" {
+			m = c.elemOfKeys(pcall.Common().Args[0], pcall)
+		} else if mm, tr := c.elemOfKeyList(a[1], add); tr == "path.Clean" {
+			m = mm
+		}
+		if m != nil {
+			o := org(m)
+			if strings.HasSuffix(o, ".(in_toto.Link).Materials") {
 				s.materialPaths = resolve(a[0], add)
-			} else if strings.Contains(o, ".(in_toto.Link).Products)") {
+			} else if strings.HasSuffix(o, ".(in_toto.Link).Products") {
 				s.productPaths = resolve(a[0], add)
+			}
+		}
+	}
+	// NewSet(cleaned key list...)
+	for _, ns := range callsIn(f, "in_toto.NewSet") {
+		if m, tr := c.keyListOf(ns.Common().Args[0], ns); m != nil && tr == "path.Clean" {
+			o := org(m)
+			if strings.HasSuffix(o, ".(in_toto.Link).Materials") {
+				s.materialPaths = ns.Value()
+			} else if strings.HasSuffix(o, ".(in_toto.Link).Products") {
+				s.productPaths = ns.Value()
 			}
 		}
 	}
@@ -403,14 +422,34 @@ func (c *Ctx) c03setsIn(f *ssa.Function, org func(ssa.Value) string) *c03Sets {
 	// modified: set whose Add is guarded by !DeepEqual(materials[name], products[name]) for name ranging over remained
 	for _, add := range callsIn(f, "(in_toto.Set).Add") {
 		a := add.Common().Args
-		if s.remained == nil || org(a[1]) != "key("+org(s.remained)+")" {
+		if s.remained == nil {
 			continue
+		}
+		// the added name ranges over remained
+		if m, _ := rangeKeyOf(resolve(a[1], add)); m == nil || resolve(m, nil) != s.remained {
+			continue
+		}
+		// materials[name] / products[name] for a name ranging over remained
+		side := func(v ssa.Value, at ssa.Instruction) string {
+			lk, ok := unwrapIface(resolve(v, at)).(*ssa.Lookup)
+			if !ok {
+				return ""
+			}
+			if m, _ := rangeKeyOf(resolve(lk.Index, lk)); m == nil || resolve(m, nil) != s.remained {
+				return ""
+			}
+			o := org(lk.X)
+			switch {
+			case strings.HasSuffix(o, ".Materials"):
+				return "M"
+			case strings.HasSuffix(o, ".Products"):
+				return "P"
+			}
+			return ""
 		}
 		for _, de := range callsIn(f, "reflect.DeepEqual") {
 			d := de.Common().Args
-			o0, o1 := org(d[0]), org(d[1])
-			nameKey := "{key(" + org(s.remained) + ")}"
-			if strings.HasSuffix(o0, ".Materials"+nameKey) && strings.HasSuffix(o1, ".Products"+nameKey) || strings.HasSuffix(o1, ".Materials"+nameKey) && strings.HasSuffix(o0, ".Products"+nameKey) {
+			if s0, s1 := side(d[0], de), side(d[1], de); s0 != "" && s1 != "" && s0 != s1 {
 				if c.condAt(de.Value(), false, add.Block()) {
 					s.modified = resolve(a[0], add)
 				}
